@@ -134,45 +134,47 @@ func treeVal(rng *rand.Rand, o TreeOpts, key string) any {
 func SetValue(rng *rand.Rand, family string) (val any, text string) {
 	switch family {
 	case "set":
-		switch x := rng.Intn(20); {
+		switch x := rng.Intn(26); {
 		case x < 4:
 			return float64(rng.Intn(200) - 20), ""
 		case x < 5:
-			return float64(0), ""
+			return float64(rng.Intn(2)), "" // 0 and 1 are integers, not booleans
 		case x < 7:
 			b := rng.Intn(2) == 0
-			return b, Pick(rng, map[bool][]string{true: {"true", "TRUE", "True"}, false: {"false", "FALSE", "False"}}[b])
+			return b, Pick(rng, map[bool][]string{true: {"true", "TRUE", "True", "tRuE"}, false: {"false", "FALSE", "False", "fAlSe"}}[b])
 		case x < 9:
-			return nil, Pick(rng, []string{"null", "NULL", "Null"})
+			return nil, Pick(rng, []string{"null", "NULL", "Null", "nUlL"})
 		case x < 11:
-			return Pick(rng, []string{"007", "0123", "00", "0x1F", "08"}), "" // leading zero: stays a string
+			return Pick(rng, []string{"007", "0123", "00", "0x1F", "08", "01", "0777", "000"}), "" // leading zero: stays a string
 		case x < 12:
 			return "", ""
 		case x < 15:
 			return Pick(rng, []string{"a,b", "x=y", "sp ace", "{brace", "ünï", `back\slash`, "a.b", "tr}ail", "q[1]", `,lead`, `end\`}), ""
-		case x < 17:
+		case x < 18:
+			return setList(rng)
+		case x < 23:
+			// look-alikes of typed literals: all of them are plain strings
+			return Pick(rng, lookAlikes), ""
+		}
+		return Pick(rng, []string{"red", "green", "blue", "on", "off", "x1", "zeta", "v1"}), ""
+	case "set-string":
+		strs := []string{"true", "false", "null", "123", "0", "1", "007", "", "plain", "a,b", "x=y", "ünï", `b\s`, "{br", "TRUE", "tRuE", "False", "NULL", "nUlL", "-5"}
+		strs = append(strs, lookAlikes...)
+		if rng.Intn(6) == 0 {
 			n := 1 + rng.Intn(3)
 			l := make([]any, n)
 			for i := range l {
-				switch rng.Intn(5) {
-				case 0:
-					l[i] = float64(rng.Intn(50))
-				case 1:
-					l[i] = Pick(rng, []string{"i,j", "cl}ose", "007", `b\s`})
-				case 2:
-					l[i] = rng.Intn(2) == 0
-				default:
-					l[i] = Pick(rng, words[:8])
+				l[i] = Pick(rng, append([]string{"i,j", "w"}, strs[:8]...))
+				if rng.Intn(2) == 0 {
+					l[i] = Pick(rng, strs[13:])
+				}
+				if l[i] == "" {
+					l[i] = "e"
 				}
 			}
 			return l, ""
 		}
-		return Pick(rng, []string{"red", "green", "blue", "on", "off", "x1", "zeta", "v1"}), ""
-	case "set-string":
-		if rng.Intn(8) == 0 {
-			return []any{Pick(rng, []string{"1", "true", "w"}), Pick(rng, []string{"null", "2", "i,j"})}, ""
-		}
-		return Pick(rng, []string{"true", "false", "null", "123", "0", "007", "", "plain", "a,b", "x=y", "ünï", `b\s`, "{br"}), ""
+		return Pick(rng, strs), ""
 	case "set-json":
 		switch x := rng.Intn(10); {
 		case x < 2:
@@ -197,6 +199,8 @@ func SetValue(rng *rand.Rand, family string) (val any, text string) {
 	}
 	panic("unknown family " + family)
 }
+
+var lookAlikes = []string{"t", "T", "f", "F", "y", "n", "yes", "no", "Yes", "NO", "on", "off", "On", "OFF", "~", "nil", "none", "tru", "falsy", "nul"}
 
 func pickKey(rng *rand.Rand, existing []string, family string, special bool) string {
 	ok := func(k string) bool { return family != "set-literal" || LiteralSafe(k) }
